@@ -35,7 +35,7 @@ class Conn:
     __slots__ = ("cid", "sock", "accepted_at", "registered", "running", "closed_at", "closed_by", "sent", "inbuf",
                  "peer_closed", "handled", "idle_since", "listener", "dispatched_at_iter", "data_arrived_iter",
                  "close_under_handler", "responses_done", "last_keepalive", "early_close", "polls_ready", "waits_ready",
-                 "read_unanswered", "parked_seq", "started_seq")
+                 "read_unanswered", "parked_seq", "started_seq", "queued_dispatch")
 
     def __init__(self, cid, sock, now, listener):
         self.cid = cid
@@ -62,6 +62,7 @@ class Conn:
         self.read_unanswered = 0        # request bytes taken from the client since the last byte written to it
         self.parked_seq = None          # event number at which it was put back into the poller as an idle keep-alive connection
         self.started_seq = None         # event number at which its current handler started running
+        self.queued_dispatch = False    # handed to the pool, handler not started yet
 
 
 class ScriptedSocket:
@@ -146,6 +147,11 @@ class ScriptedSocket:
                 c.close_under_handler = True
             if c.idle_since is not None and not c.inbuf and not c.peer_closed and k.worker is not None and k.worker.alive:
                 c.early_close = k.now - c.idle_since
+            if c.queued_dispatch and not c.peer_closed and (c.inbuf or c.read_unanswered) and not k.hang:
+                # its request had been handed to the thread pool; the connection is closed before any handler looked at it
+                k.violate("dispatched-request-dropped-before-handling",
+                          "connection %d: its request was queued for a handler thread and the connection was closed before a handler "
+                          "ran (worker %s)" % (c.cid, "running" if k.worker is not None and k.worker.alive else "leaving its loop"))
             if c.read_unanswered and not c.peer_closed and k.worker is not None and k.worker.alive and not k.hang:
                 # the worker took bytes of a request from a client that is still connected and then closed the connection
                 # without writing anything back
@@ -274,6 +280,7 @@ class ControlledExecutor:
                 c.dispatched_at_iter = self.k.iterations
                 c.idle_since = None         # dispatched: no longer an idle keep-alive connection
                 c.parked_seq = None
+                c.queued_dispatch = True
                 c.polls_ready = 0
                 c.waits_ready = 0
                 self.k.log.append((self.k.now, "dispatch", c.cid))
@@ -298,6 +305,7 @@ class ControlledExecutor:
                     conn = args[0].sock.conn
                     conn.running = me
                     conn.idle_since = None
+                    conn.queued_dispatch = False
                     k.seq += 1
                     conn.started_seq = k.seq
             if not f.set_running_or_notify_cancel():
@@ -326,8 +334,23 @@ class ControlledExecutor:
                 k.thread_state(me, "idle")
                 k.cond.notify_all()
 
-    def shutdown(self, wait=True, **kw):
+    def shutdown(self, wait=True, cancel_futures=False, **kw):
         self.shut = True
+        if cancel_futures:
+            # what concurrent.futures does: work that has not started is taken off the queue and its future cancelled
+            while True:
+                try:
+                    item = self.q.get_nowait()
+                except queue.Empty:
+                    break
+                if item is None:
+                    continue
+                f, fn, args = item
+                with self.k.cond:
+                    self.k.queued -= 1
+                    self.k.count("queued_work_cancelled_at_shutdown")
+                f.cancel()
+                f.set_running_or_notify_cancel()
         for _ in self.threads:
             self.q.put(None)
 
